@@ -417,11 +417,40 @@ pub fn run(report: &mut Report, tier: &str) {
     if capped > 0 {
         report.machinery_error(format!("{capped} configurations did not complete deviation level 1 within the wall cap"));
     }
+    // two polls at the same time on two workers: the listen tables under loom
+    vkit::loomrun::run_into(&loom_scenarios(tier), report);
     report.set("exhaustive", json!(capped == 0));
     report.set("rule", json!("every binding configuration (subsets of size <= 3 of five candidate bindings per receiving machine, with/without ARP, route with/without MAC) x every execution within 1 deviation (task order, frame held back 3 ms); nine datagrams per execution to {A1, A2, broadcast} x {P, Q, R}"));
 }
 
+/// E4: one worker binds further endpoints (chosen to share a map shard with the looked-up
+/// keys) while another demultiplexes datagrams for an endpoint bound all along; and two
+/// datagram sockets binding the same endpoint at the same time, followed by an arrival.
+fn loom_scenarios(tier: &str) -> Vec<vkit::loomrun::LoomScenario> {
+    let thorough = tier == "thorough";
+    let mut v: Vec<String> = vec![];
+    let (maxb, maxd) = if thorough { (4, 3) } else { (2, 2) };
+    for binds in 1..=maxb {
+        for dgrams in 1..=maxd {
+            for w in ["wild", "nowild"] {
+                v.push(format!("udp:{binds}:{dgrams}:{w}"));
+            }
+        }
+    }
+    v.push("sockbind:datagram".into());
+    v.into_iter()
+        .map(|name| vkit::loomrun::LoomScenario {
+            name,
+            preemptions: if thorough { 4 } else { 3 },
+            wall: Duration::from_secs(if thorough { 900 } else { 120 }),
+        })
+        .collect()
+}
+
 pub fn replay(w: &serde_json::Value, _tier: &str) -> String {
+    if let Some(s) = vkit::loomrun::replay(w) {
+        return s;
+    }
     let name = w["scenario"].as_str().unwrap_or("");
     let ch: Vec<u16> = w["choices"]
         .as_array()
